@@ -31,15 +31,42 @@ impl TargetWatcher {
                 .into_iter()
                 .filter(|(_extensions, paths)| !paths.is_empty())
                 .map(|(extensions, paths)| {
+                    // A watch on a file follows its inode: once the file is replaced by a rename (atomic save), later
+                    // changes to the path would go unnoticed. Its directory is watched as well to report them.
+                    let file_dirs = paths
+                        .iter()
+                        .filter(|path| {
+                            let file_path: &std::path::Path = path.as_path().into();
+                            !file_path.is_dir()
+                                && !paths.iter().any(|other| other != *path && path.starts_with(other))
+                        })
+                        .filter_map(|path| path.parent().map(|dir| (path.to_path_buf(), dir.to_path_buf())))
+                        .collect::<HashMap<PathBuf, PathBuf>>();
+
                     let mut watcher = Self::build_immediate_watcher(
                         target_id.clone(),
                         target_invalidated_sender.clone(),
                         extensions,
+                        paths.iter().map(|path| path.to_path_buf()).collect(),
+                        file_dirs.values().cloned().collect(),
                     )?;
 
                     for path in paths {
                         match watcher.watch(path.as_path().into(), RecursiveMode::Recursive) {
-                            Ok(_) => {}
+                            Ok(_) => {
+                                if let Some(dir) = file_dirs.get(path) {
+                                    if let Err(e) =
+                                        watcher.watch(dir.as_path().into(), RecursiveMode::NonRecursive)
+                                    {
+                                        log::warn!(
+                                            "{} - Failed to watch the directory of {}: {}",
+                                            target_id,
+                                            path.display(),
+                                            e,
+                                        );
+                                    }
+                                }
+                            }
                             Err(e) if is_path_not_found(&e) => {
                                 log::warn!(
                                     "{} - Skipping watch on non-existing path: {}",
@@ -73,6 +100,8 @@ impl TargetWatcher {
         target_id: TargetId,
         target_invalidated_sender: Sender<TargetInvalidatedMessage>,
         extensions: FileExtensions,
+        watched_paths: Vec<PathBuf>,
+        file_dirs: Vec<PathBuf>,
     ) -> Result<RecommendedWatcher> {
         let watcher_config = Config::default().with_poll_interval(Duration::from_millis(100));
         Watcher::new(
@@ -89,7 +118,8 @@ impl TargetWatcher {
                     .into_iter()
                     .filter(|path| {
                         let path: PathBuf = path.into();
-                        !is_tmp_editor_file(&path)
+                        !is_other_file_in_file_dir(&path, &watched_paths, &file_dirs)
+                            && !is_tmp_editor_file(&path)
                             && !work_dir::is_in_work_dir(&path)
                             && domain::matches_extensions(path.as_path().into(), &extensions)
                     })
@@ -123,6 +153,20 @@ fn is_path_not_found(e: &notify::Error) -> bool {
         ErrorKind::Io(io_error) => io_error.kind() == std::io::ErrorKind::NotFound,
         _ => false,
     }
+}
+
+/// In the directory of a watched file, only the watched paths are relevant.
+fn is_other_file_in_file_dir(
+    file_path: &Path,
+    watched_paths: &[PathBuf],
+    file_dirs: &[PathBuf],
+) -> bool {
+    file_dirs
+        .iter()
+        .any(|dir| file_path.parent() == Some(dir.as_path()))
+        && !watched_paths
+            .iter()
+            .any(|watched| file_path.starts_with(watched))
 }
 
 fn is_tmp_editor_file(file_path: &Path) -> bool {
